@@ -295,6 +295,8 @@ func extractLSAInformation(lstype, lsalength uint16, data []byte) (interface{}, 
 	if len(data) < int(lsalength) {
 		return nil, fmt.Errorf("Link State header length %v too short, %v required", len(data), lsalength)
 	}
+	// Nothing below may read past the end of this LSA.
+	data = data[:lsalength]
 	var content interface{}
 	switch lstype {
 	case RouterLSAtypeV2:
@@ -324,6 +326,9 @@ func extractLSAInformation(lstype, lsalength uint16, data []byte) (interface{}, 
 	case NSSALSAtypeV2:
 		fallthrough
 	case ASExternalLSAtypeV2:
+		if len(data) < 36 {
+			return nil, errors.New("ASExternalLSAtypeV2 too small")
+		}
 		content = ASExternalLSAV2{
 			NetworkMask:       binary.BigEndian.Uint32(data[20:24]),
 			ExternalBit:       data[24] & 0x80,
@@ -332,9 +337,15 @@ func extractLSAInformation(lstype, lsalength uint16, data []byte) (interface{}, 
 			ExternalRouteTag:  binary.BigEndian.Uint32(data[32:36]),
 		}
 	case NetworkLSAtypeV2:
+		if len(data) < 24 {
+			return nil, errors.New("NetworkLSAtypeV2 too small")
+		}
 		var routers []uint32
 		var j uint32
 		for j = 24; j < uint32(lsalength); j += 4 {
+			if len(data) < int(j+4) {
+				return nil, errors.New("NetworkLSAtypeV2 too small")
+			}
 			routers = append(routers, binary.BigEndian.Uint32(data[j:j+4]))
 		}
 		content = NetworkLSAV2{
@@ -342,9 +353,15 @@ func extractLSAInformation(lstype, lsalength uint16, data []byte) (interface{}, 
 			AttachedRouter: routers,
 		}
 	case RouterLSAtype:
+		if len(data) < 24 {
+			return nil, errors.New("RouterLSAtype too small")
+		}
 		var routers []Router
 		var j uint32
 		for j = 24; j < uint32(lsalength); j += 16 {
+			if len(data) < int(j+16) {
+				return nil, errors.New("RouterLSAtype too small")
+			}
 			router := Router{
 				Type:                uint8(data[j]),
 				Metric:              binary.BigEndian.Uint16(data[j+2 : j+4]),
@@ -360,9 +377,15 @@ func extractLSAInformation(lstype, lsalength uint16, data []byte) (interface{}, 
 			Routers: routers,
 		}
 	case NetworkLSAtype:
+		if len(data) < 24 {
+			return nil, errors.New("NetworkLSAtype too small")
+		}
 		var routers []uint32
 		var j uint32
 		for j = 24; j < uint32(lsalength); j += 4 {
+			if len(data) < int(j+4) {
+				return nil, errors.New("NetworkLSAtype too small")
+			}
 			routers = append(routers, binary.BigEndian.Uint32(data[j:j+4]))
 		}
 		content = NetworkLSA{
@@ -370,6 +393,9 @@ func extractLSAInformation(lstype, lsalength uint16, data []byte) (interface{}, 
 			AttachedRouter: routers,
 		}
 	case InterAreaPrefixLSAtype:
+		if len(data) < 28 {
+			return nil, errors.New("InterAreaPrefixLSAtype too small")
+		}
 		content = InterAreaPrefixLSA{
 			Metric:        binary.BigEndian.Uint32(data[20:24]) & 0x00FFFFFF,
 			PrefixLength:  uint8(data[24]),
@@ -377,6 +403,9 @@ func extractLSAInformation(lstype, lsalength uint16, data []byte) (interface{}, 
 			AddressPrefix: data[28:uint32(lsalength)],
 		}
 	case InterAreaRouterLSAtype:
+		if len(data) < 32 {
+			return nil, errors.New("InterAreaRouterLSAtype too small")
+		}
 		content = InterAreaRouterLSA{
 			Options:             binary.BigEndian.Uint32(data[20:24]) & 0x00FFFFFF,
 			Metric:              binary.BigEndian.Uint32(data[24:28]) & 0x00FFFFFF,
@@ -385,10 +414,19 @@ func extractLSAInformation(lstype, lsalength uint16, data []byte) (interface{}, 
 	case ASExternalLSAtype:
 		fallthrough
 	case NSSALSAtype:
+		if len(data) < 28 {
+			return nil, errors.New("ASExternalLSAtype too small")
+		}
 		flags := uint8(data[20])
 		prefixLen := uint8(data[24]) / 8
+		if len(data) < 28+int(prefixLen) {
+			return nil, errors.New("ASExternalLSAtype too small for address prefix")
+		}
 		var forwardingAddress []byte
 		if (flags & 0x02) == 0x02 {
+			if len(data) < 28+int(prefixLen)+16 {
+				return nil, errors.New("ASExternalLSAtype too small for forwarding address")
+			}
 			forwardingAddress = data[28+uint32(prefixLen) : 28+uint32(prefixLen)+16]
 		}
 		content = ASExternalLSA{
@@ -401,12 +439,21 @@ func extractLSAInformation(lstype, lsalength uint16, data []byte) (interface{}, 
 			ForwardingAddress: forwardingAddress,
 		}
 	case LinkLSAtype:
+		if len(data) < 44 {
+			return nil, errors.New("LinkLSAtype too small")
+		}
 		var prefixes []Prefix
 		var prefixOffset uint32 = 44
 		var j uint32
 		numOfPrefixes := binary.BigEndian.Uint32(data[40:44])
 		for j = 0; j < numOfPrefixes; j++ {
+			if uint64(len(data)) < uint64(prefixOffset)+4 {
+				return nil, errors.New("LinkLSAtype too small for prefix")
+			}
 			prefixLen := uint8(data[prefixOffset])
+			if uint64(len(data)) < uint64(prefixOffset)+4+uint64(prefixLen)/8 {
+				return nil, errors.New("LinkLSAtype too small for address prefix")
+			}
 			prefix := Prefix{
 				PrefixLength:  prefixLen,
 				PrefixOptions: uint8(data[prefixOffset+1]),
@@ -423,12 +470,21 @@ func extractLSAInformation(lstype, lsalength uint16, data []byte) (interface{}, 
 			Prefixes:         prefixes,
 		}
 	case IntraAreaPrefixLSAtype:
+		if len(data) < 32 {
+			return nil, errors.New("IntraAreaPrefixLSAtype too small")
+		}
 		var prefixes []Prefix
 		var prefixOffset uint32 = 32
 		var j uint16
 		numOfPrefixes := binary.BigEndian.Uint16(data[20:22])
 		for j = 0; j < numOfPrefixes; j++ {
+			if uint64(len(data)) < uint64(prefixOffset)+4 {
+				return nil, errors.New("IntraAreaPrefixLSAtype too small for prefix")
+			}
 			prefixLen := uint8(data[prefixOffset])
+			if uint64(len(data)) < uint64(prefixOffset)+4+uint64(prefixLen)/8 {
+				return nil, errors.New("IntraAreaPrefixLSAtype too small for address prefix")
+			}
 			prefix := Prefix{
 				PrefixLength:  prefixLen,
 				PrefixOptions: uint8(data[prefixOffset+1]),
